@@ -47,7 +47,7 @@ def canon(d):
 def variants(d, rng):
     nproc = len(d["events"]) + len(d["odes"])
     out = []
-    for route in ("event", "legacy", "mixed", "incremental"):
+    for route in ("event", "legacy", "mixed", "incremental", "mixed"):
         order = [int(x) for x in rng.permutation(nproc)]
         dd = dict(d, decl=["list", "comma", "space"][int(rng.integers(0, 3))])
         out.append((route, order, dd))
@@ -56,7 +56,7 @@ def variants(d, rng):
 
 def run(ck):
     import gen_assembly
-    ck.rule = ("random process sets entered through 4 route assignments (Event objects / legacy transition & birth_death "
+    ck.rule = ("random process sets entered through 5 route assignments (per process one of: Event with rate, Event whose single or one-of-several member Transition carries the rate, a solitary Transition handed to Event, add_event / add_transition / add_birth_death after construction, legacy transition & birth_death "
                "lists incl. births by origin / per-process random mix incl. Transition-with-own-rate in an Event / "
                "incremental add_*), random process orders and list/comma/space declarations; non-trivial = >= 2 events, "
                "one single-transition (so the legacy route really differs); distinct by JSON hash")
